@@ -8,6 +8,8 @@ def run(c):
     proxylib.decide(c, "C01", relevant=lambda row: True)
     # "only if ... authorized": the caller's identity is the one it has at that connection (a process may exec)
     proxylib.identity_history(c, "C01")
+    from checks import c07
+    c07.late_record(c, "C01")
 
 
 def replay(c, path):
